@@ -261,6 +261,7 @@ type c15Sched struct {
 	isTid  map[interface{}]uint64
 	events map[uint64][]string
 	parked map[uint64]chan struct{}
+	gaveUp map[uint64]bool
 	seen   int32 // number of debug.* hook events (hooks present?)
 }
 
@@ -323,7 +324,12 @@ func (s *c15Sched) at(point string, args []interface{}) {
 			s.mu.Unlock()
 			select {
 			case <-ch:
-			case <-time.After(5 * time.Second):
+			case <-time.After(400 * time.Millisecond):
+				// the controller's Continue did not complete while this thread stands here (it may
+				// be blocked on a lock this thread holds): give the window up
+				s.mu.Lock()
+				s.gaveUp[tid] = true
+				s.mu.Unlock()
 			}
 		} else {
 			s.jitter()
@@ -492,7 +498,7 @@ func c15Debugged(c *c15Run, kill bool) (threads []*c15Thread, lg *memLog, rec *r
 	}
 	defer erp.Cron.Stop()
 	sched := &c15Sched{mode: c.timing, rng: NewRand(c.seed), isTid: map[interface{}]uint64{},
-		events: map[uint64][]string{}, parked: map[uint64]chan struct{}{}}
+		events: map[uint64][]string{}, parked: map[uint64]chan struct{}{}, gaveUp: map[uint64]bool{}}
 	if !c15HooksPresent() && c.timing == "window" {
 		sched.mode = "poll"
 	}
@@ -715,6 +721,15 @@ func c15Debugged(c *c15Run, kill bool) (threads []*c15Thread, lg *memLog, rec *r
 			}
 			rec.HandleInput("cont " + id + " " + c15Cmds[parts[len(parts)-1][0]])
 			if parked != nil {
+				sched.mu.Lock()
+				missed := sched.gaveUp[t.tid]
+				delete(sched.gaveUp, t.tid)
+				sched.mu.Unlock()
+				if missed {
+					CountRun("window.missed")
+				} else {
+					CountRun("window.inside") // Continue completed while the thread stood in the window
+				}
 				close(parked)
 			}
 			last = time.Now()
@@ -1263,7 +1278,7 @@ var c15Hooks bool
 func c15HooksPresent() bool {
 	c15HooksOnce.Do(func() {
 		s := &c15Sched{mode: "poll", rng: NewRand(1), isTid: map[interface{}]uint64{},
-			events: map[uint64][]string{}, parked: map[uint64]chan struct{}{}}
+			events: map[uint64][]string{}, parked: map[uint64]chan struct{}{}, gaveUp: map[uint64]bool{}}
 		c15Install(s)
 		erp := interpreter.NewECALRuntimeProvider("t", nil, &memLog{})
 		defer erp.Cron.Stop()
